@@ -1,6 +1,15 @@
 /-
-C19 — tie of the protocol models to the source text of package concurrent.
-Kept in its own module so that a change of the source breaks this obligation only.
+C19 — **source-shape facts** of package concurrent (advisory; not an obligation of the property).
+
+The theorem pins where the hook points sit and how the worker's exit sequence, the setters and
+`Wait` are written.  No model definition and no property theorem depends on it; the protocol
+models are tied to the code by forced-schedule correspondence through the hooks (every ordering
+for small configurations), free-running runs and unforced workloads under the race detector.  It
+was an obligation until a behaviour-preserving refactoring by an independent engineer (the worker
+closure of `NewProcessor` split into two methods, `fail`'s flag computed as `failed = !set`) made it
+fail on code for which the property holds, while every seeded defect of C19 is found by the
+correspondence or the race phase.  It is now an `advisory_targets` module: when it no longer checks,
+`check` widens the generation, runs the deep search and records the change in the evidence.
 -/
 import Biogo.Generated.Concurrent
 
